@@ -15,13 +15,25 @@
 //   all-zero buffer.  In E mode every R/P/S token is followed by `|<a>,<bb>,<i>,<lng>` (the
 //   object's fields as hex8 of the int value).
 //
-// time() is interposed: undo-history.cpp's `time(NULL)` resolves to the definition below.
+// Outside the claimed domain the whole output line is `ood` (the history is still run, under
+// the sanitizers, but nothing of it is compared):
+//   * some recorded address is 248 bytes or longer (its set-message does not fit the
+//     library's 256-byte buffer; the property makes no claim about what is emitted then);
+//   * the clock is moved backwards (T with a negative step) after the first R / P of the
+//     line ("recorded within two seconds" says nothing about negative ages).  Negative
+//     steps *before* the first record only choose the clock origin of the line.
+//
+// The wall clock is interposed: time(), clock_gettime() (hence std::chrono::system_clock /
+// steady_clock of libstdc++), gettimeofday() and timespec_get() all resolve to the
+// definitions below and read the harness clock.
 #include "common.h"
 #include <ctime>
 #include <climits>
 #include <cstdarg>
 #include <unistd.h>
 #include <sys/wait.h>
+#include <sys/time.h>
+#include <chrono>
 #include <rtosc/rtosc.h>
 #include <rtosc/ports.h>
 #include <rtosc/port-sugar.h>
@@ -29,10 +41,35 @@
 using namespace vh;
 
 static time_t g_clock = 1000000;
-extern "C" time_t time(time_t *t)
+static const size_t DOMAIN_ADDR_LIMIT = 248;   // number of the property module, not read from the library
+extern "C" time_t time(time_t *t) noexcept
 {
     if (t) *t = g_clock;
     return g_clock;
+}
+extern "C" int clock_gettime(clockid_t, struct timespec *ts) noexcept
+{
+    if (ts) {
+        ts->tv_sec = g_clock;
+        ts->tv_nsec = 0;
+    }
+    return 0;
+}
+extern "C" int gettimeofday(struct timeval *tv, void *) noexcept
+{
+    if (tv) {
+        tv->tv_sec = g_clock;
+        tv->tv_usec = 0;
+    }
+    return 0;
+}
+extern "C" int timespec_get(struct timespec *ts, int base) noexcept
+{
+    if (ts) {
+        ts->tv_sec = g_clock;
+        ts->tv_nsec = 0;
+    }
+    return base;
 }
 
 static std::string hex8(uint32_t v)
@@ -179,6 +216,7 @@ static std::string step(const std::string &line)
         }
     });
     std::string out;
+    bool ood = false, recorded = false;
     size_t i = 1;
     while (i < w.size()) {
         const std::string &op = w[i];
@@ -191,6 +229,8 @@ static std::string step(const std::string &line)
                 return "bad-op";
             for (unsigned char c : addr)
                 if (!c) return "bad-op";
+            if (addr.size() >= DOMAIN_ADDR_LIMIT) ood = true;
+            recorded = true;
             record(h, addr, w[i + 2][0], ov, nv);
             tok = posz(h);
             i += 5;
@@ -201,6 +241,7 @@ static std::string step(const std::string &line)
             char mbuf[64];
             char types[2] = {port_type[idx], 0};
             rtosc_message(mbuf, sizeof mbuf, port_name[idx], types, (int)(int32_t)v);
+            recorded = true;
             ports.dispatch(mbuf, rt);
             tok = posz(h);
             i += 3;
@@ -214,6 +255,7 @@ static std::string step(const std::string &line)
         } else if (op == "T" && i + 1 < w.size()) {
             long long d;
             if (!parse_int(w[i + 1], d, -1000000000LL, 1000000000LL)) return "bad-op";
+            if (d < 0 && recorded) ood = true;
             g_clock += (time_t)d;
             tok = "t";
             i += 2;
@@ -222,6 +264,7 @@ static std::string step(const std::string &line)
         if (e2e && tok != "t") tok += store(obj);
         out += (out.empty() ? "" : " ") + tok;
     }
+    if (ood) return "ood";
     return out.empty() ? "-" : out;
 }
 
@@ -307,9 +350,20 @@ int main(int argc, char **argv)
     // undo-history.o's reference to it (an executable's own definition precedes libc and the
     // sanitizer runtime).  Check that the symbol really is ours.
     time_t (*volatile fp)(time_t *) = &time;
+    int (*volatile fc)(clockid_t, struct timespec *) = &clock_gettime;
+    int (*volatile fg)(struct timeval *, void *) = (int (*)(struct timeval *, void *)) & gettimeofday;
     g_clock = 12345;
-    if (fp(NULL) != 12345) {
-        fprintf(stderr, "undo harness: time() interposition is not effective\n");
+    struct timespec ts = {0, 0};
+    struct timeval tv = {0, 0};
+    fc(CLOCK_REALTIME, &ts);
+    fg(&tv, NULL);
+    // std::chrono::system_clock::now() lives in libstdc++.so and calls clock_gettime through
+    // the dynamic symbol table: the executable's definition must win there as well.
+    time_t viachrono = std::chrono::system_clock::to_time_t(std::chrono::system_clock::now());
+    if (fp(NULL) != 12345 || ts.tv_sec != 12345 || tv.tv_sec != 12345 || viachrono != 12345) {
+        fprintf(stderr, "undo harness: clock interposition is not effective (time %ld clock_gettime %ld "
+                        "gettimeofday %ld chrono %ld)\n",
+                (long)fp(NULL), (long)ts.tv_sec, (long)tv.tv_sec, (long)viachrono);
         return 3;
     }
     if (argc < 2) { fprintf(stderr, "usage: %s <ops-file>\n", argv[0]); return 2; }
